@@ -378,4 +378,29 @@ def check_C07(pid, tier, seed, verdict):
                  "names other than localhost are made resolvable by pre-seeding the cache through a cfg-guarded hook"]
 
 
-CHECKS = {"C07": check_C07, "C12": check_C12, "C13": check_C13, "C10": check_C10, "C14": check_C14, "C09": check_C09, "C11": check_C11, "C01": check_C01, "C02": check_C02, "C03": check_C03, "C04": check_C04, "C05": check_C05}
+# ------------------------------------------------------------------------------------------- C16
+def check_C16(pid, tier, seed, verdict):
+    g = V.run_gen(pid, "MC_Socks5.tla", "MC_Socks5.cfg", workers=1)
+    mcs = [g]
+    sp = os.path.join(V.workdir(pid), "gen.scn")
+    V.write_scenarios(sp, g["scenarios"])
+    run = V.run_harness(pid, "socks", seed, tier, sp)
+    res = V.run_trace(pid, "Trace_Socks5.tla", "Trace_Socks5.cfg", run["trace"])
+    verdict.add_trace_result("socks", res, run)
+    cnt = res["cnt"]
+    V.log(f"[{pid}] trace: {cnt['socks']} connections judged ({len(g['scenarios'])} abstract cases), {cnt['sibling']} sibling checks, "
+          f"bad={len(res['bad'])}")
+    cov = _cov(mcs, cnt["scn"], cnt["nontrivial"],
+               "scenario = one TCP connection to the real SOCKS5 listener built from one case of the abstract alphabet of "
+               "Socks5.tla (version class x method count 0/1/2/255 x no-auth offered x truncation point of the greeting x request "
+               "version x command CONNECT/BIND/UDP/unknown x address type v4/name/v6/unknown x empty name x accepting/refusing "
+               "target x truncation point of the request x segmentation whole/byte-at-a-time/per field): ALL relevant cases are "
+               "enumerated by TLC and each is run (thorough: twice with different concrete bytes); plus one sibling-tunnel check "
+               "per 40 cases; non-trivial = connections whose observation was judged by Accept", V.sample_descrs(run["descr"]),
+               True, dict(behaviours_generated=len(g["scenarios"]), trace_events=res["lines"], event_counts=cnt, exhaustive_cases=True))
+    cov["exhaustive"] = False
+    return cov, ["TCP may coalesce segments: segmentation at the socket is best effort (TCP_NODELAY + pauses)",
+                 "absence of a reply is judged when the listener closes the connection (positive signal) or after 1-3 s"]
+
+
+CHECKS = {"C16": check_C16, "C07": check_C07, "C12": check_C12, "C13": check_C13, "C10": check_C10, "C14": check_C14, "C09": check_C09, "C11": check_C11, "C01": check_C01, "C02": check_C02, "C03": check_C03, "C04": check_C04, "C05": check_C05}
